@@ -260,11 +260,11 @@ PROPS = {
                         "V4_inject.fn:Instruction::new",
                         "V1_locals.fn:FunctionBuilder as AddLocal::add_local", "V1_locals.add_local.*", "V1_locals.fn:add_local", "V1_locals.fn:lemma_*"],
         "obligations_extra": V11_CODE,
-        "glue": V11_TRUST + ["the code-section / function-section / name-section emission loops in encode_internal are not under contract",
-                 "FunctionBuilder::set_name and finish_component_with_tag are not under contract",
+        "glue": V11_TRUST + ["the function-section and code-section loops of encode_internal are regions under contract (V11: one type index per live local function in order; own locals and lowered body; a named local function named under its own index); what surrounds them in encode_internal is read off the text",
+                 "FunctionBuilder::set_name is not under contract",
                  "in unit V6 the Opcode::end helper and ModuleTypes::add_func_type are assumed with the contracts proved in V9 and V7"],
         "design_ref": "DESIGN.md §5 C12",
-        "level_text": "inject appends exactly the given operator; finish_module registers a local function whose body is the built sequence plus exactly one `end`, with the declared locals, at the returned id (= its position), with a type id that designates (params, results); every existing function is untouched and the library's own consistency assertion cannot fire under the invariant. Emission is glue.",
+        "level_text": "inject appends exactly the given operator; finish_module registers a local function whose body is the built sequence plus exactly one `end`, with the declared locals, at the returned id (= its position), with a type id that designates (params, results); every existing function is untouched and the library's own consistency assertion cannot fire under the invariant. Emission: the function section carries one type index per live local function, in order, and the code section exactly the stored locals and the lowered body of every live local function (regions of encode_internal, V11).",
     },
     "C15": {
         "title": "Before/after/alternate injection is lowered exactly",
